@@ -15,6 +15,7 @@ class Case:
 
 
 CASES = []
+CASES_BY_NAME = {}
 
 
 def _work(item):
@@ -34,6 +35,8 @@ def _work(item):
         ret = c.apply(p2)
         if isinstance(ret, Prog):
             p2 = ret
+        elif isinstance(ret, tuple):
+            p1, p2 = ret          # the case defines both sides of the obligation itself
     except Exception as ex:  # pylint: disable=broad-except
         rec.update(verdict='transform-raises', why=f'{type(ex).__name__}: {str(ex)[:300]}',
                    tb=traceback.format_exc()[-600:])
@@ -60,22 +63,28 @@ def _work(item):
     return rec
 
 
-def run_tv(prop, tier, seed, cases, rule, functions, bounds, assumptions, quick_max=None, extra_samples=True):
+def run_tv(prop, tier, seed, cases, rule, functions, bounds, assumptions, quick_max=None, quick_filter=None, post=None):
     global CASES  # pylint: disable=global-statement
     ctx = Ctx(prop, tier, seed, 'translation_validation')
     ctx.rule, ctx.functions, ctx.bounds, ctx.assumptions = rule, functions, bounds, assumptions
     CASES = cases
+    CASES_BY_NAME.update({c.name: c for c in cases})
     items = []
     for ci, c in enumerate(cases):
         ks = range(len(c.sizes)) if tier == 'thorough' else range(min(1, len(c.sizes)))
         items += [(ci, si) for si in ks]
-    if tier == 'quick' and quick_max and len(items) > quick_max:
-        items = rotate(items, seed, quick_max)
+    if tier == 'quick' and quick_filter:
+        keep = [it for it in items if not quick_filter(cases[it[0]])]
+        rest = [it for it in items if quick_filter(cases[it[0]])]
+        items = keep + rotate(rest, seed, quick_max or len(rest))
     modes = {}
     for rec in pmap(_work, items):
         v = rec['verdict']
         key = f"{rec['case']}@{json.dumps(rec['sizes'], sort_keys=True)}"
         ctx.solver_s += rec.get('seconds', 0)
+        if v == 'frontend-error' and 'frontend-limit' in rec['case']:
+            ctx.not_encoded.append(f'{key}: frontend rejects the source (documented limitation): {rec["why"][:120]}')
+            continue
         if v in ('frontend-error', 'harness-exception'):
             raise RuntimeError(f'{key}: {v}: {rec.get("why")}\n{rec.get("tb", "")}')
         if v == 'transform-raises':
@@ -90,7 +99,7 @@ def run_tv(prop, tier, seed, cases, rule, functions, bounds, assumptions, quick_
         ctx.programs += 1
         ctx.verdict(v)
         modes[rec.get('mode')] = modes.get(rec.get('mode'), 0) + 1
-        if rec.get('changed'):
+        if rec.get('changed') or not CASES_BY_NAME[rec['case']].must_change:
             ctx.obligation(key)
         if not rec.get('unwinding_complete', True):
             ctx.inconcl(f'{key}: unwinding bound not sufficient for every input (claim restricted to inputs within it)')
@@ -117,6 +126,8 @@ def run_tv(prop, tier, seed, cases, rule, functions, bounds, assumptions, quick_
             ctx.unrepro(f'{key}: {rec.get("replay_msg")} (solver differences {rec.get("differences")}, model {rec.get("model")})')
     ctx.extra['queries_by_encoding'] = modes
     ctx.extra['cases'] = len(cases)
+    if post:
+        post(ctx)
     return ctx.finish()
 
 
